@@ -280,13 +280,32 @@ def np_exp(ex, x):
     return m_exp(ex, x)
 
 
+def m_isclose(ex, a, b, rel_tol=1e-09, abs_tol=0.0):
+    """math.isclose: abs(a-b) <= max(rel_tol * max(abs(a), abs(b)), abs_tol); equal infinities are close, an infinity and anything else are not, NaN never"""
+    def special(v):
+        return isinstance(v, float) and (math.isinf(v) or math.isnan(v))
+    if special(a) or special(b):
+        if not is_z3(a) and not is_z3(b):
+            return math.isclose(a, b, rel_tol=rel_tol, abs_tol=abs_tol)
+        return False  # a finite symbolic real against an infinity / NaN
+    if not is_z3(a) and not is_z3(b):
+        return math.isclose(a, b, rel_tol=rel_tol, abs_tol=abs_tol)
+    ra, rb = to_real(a), to_real(b)
+    from fractions import Fraction
+    rt, at = (z3.RealVal(str(Fraction(float(t)))) if not is_z3(t) else to_real(t) for t in (rel_tol, abs_tol))
+    ab = lambda x: z3.If(x >= 0, x, -x)  # noqa: E731
+    mx = z3.If(ab(ra) >= ab(rb), ab(ra), ab(rb))
+    bound = z3.If(rt * mx >= at, rt * mx, at)
+    return ab(ra - rb) <= bound
+
+
 def install(interp):
     interp.ieee_round = ieee_round
     interp.math_fn = math_fn
     interp.ext_modules["math"] = Namespace(
         "math", exp=Native(m_exp, "exp"), expm1=Native(m_expm1, "expm1"), log=Native(m_log, "log"),
         log1p=Native(m_log1p, "log1p"), sqrt=Native(m_sqrt, "sqrt"), inf=INF, nan=float("nan"),
-        isnan=Native(np_isnan, "isnan"))
+        isnan=Native(np_isnan, "isnan"), isclose=Native(m_isclose, "isclose"))
     for m in ("typing", "typing_extensions", "abc", "collections.abc", "logging", "warnings"):
         interp.ext_modules.setdefault(m, Namespace(m, TYPE_CHECKING=False, NamedTuple=None, Protocol=None,
                                                    ABC=None, abstractmethod=None, abstractproperty=None))
